@@ -24,6 +24,23 @@ theorem C09_contiguous {α : Type} (e n : Nat) (p : Nat → α) (arr : List Nat)
          (List.range n).map (runMsg e p), false) :=
   contiguous_main e n p arr he hn hperm
 
+/-- **Promptness for unbounded streams (the resequencer half of C05).** A duplicate-free stream
+of any length, delivered in any order that keeps fewer than 256 numbers outstanding
+(`WindowOk`), sequence numbers wrapping as often as it takes: after the whole delivery exactly
+the messages `0 .. mex` (everything whose predecessors have all arrived) have been released,
+in order, each once; the resequencer expects `(e + mex) % 256` next, and it is back in `Good`
+with an empty buffer iff nothing beyond `mex` has arrived. Applied to every prefix of a
+delivery this says each message is released in the very step in which its last predecessor
+arrives. -/
+theorem C09_prompt {α : Type} (e : Nat) (p : Nat → α) (arr : List Nat)
+    (he : e < 256) (hnodup : arr.Nodup) (hwin : WindowOk arr) :
+    let r := feed ({ buf := [], next := e, mode := .good } : St (Nat × α)) (arr.map (runMsg e p))
+    r.2.1 = (List.range (mexOf arr)).map (runMsg e p) ∧ r.2.2 = false ∧
+    r.1.next = (e + mexOf arr) % 256 ∧
+    (∀ m, m ∈ r.1.buf.map Prod.snd ↔ ∃ i ∈ arr, mexOf arr < i ∧ m = runMsg e p i) ∧
+    (r.1.mode = .good ↔ ∀ i ∈ arr, i < mexOf arr) :=
+  prompt_main e p arr he hnodup hwin
+
 /-! ### Part 2: arbitrary input -/
 
 /-- The invariant holds in every state reachable by any sequence of well-formed calls
@@ -69,6 +86,12 @@ example :
         (((List.range 20).reverse).map (runMsg 250 (fun i => 1000 + i)))
       = ({ buf := [], next := 14, mode := .good },
          (List.range 20).map (runMsg 250 (fun i => 1000 + i)), false) := by decide
+
+/-- a stream that satisfies `WindowOk` although it is longer than 256 and never lets the buffer
+empty before its end: 2,4,1,6,3,… (first 12 shown by evaluation) -/
+example : mexOf [1, 3, 0, 5, 2] = 4 := by decide
+example : (feed ({ buf := [], next := 254, mode := .good } : St (Nat × Nat))
+    ([1, 3, 0, 5, 2].map (runMsg 254 (fun i => i)))).2.1 = (List.range 4).map (runMsg 254 (fun i => i)) := by decide
 
 /-- a reachable state that is in `ReSequencing` with a non-empty buffer -/
 example : (runOps (init : St (Nat × Nat)) [Op.proc 2 7, Op.proc 1 6]).1.buf.length = 2 := by decide
